@@ -77,8 +77,12 @@ impl<C: CellType> Memory<C> {
     /// not cause a bounds check failure for offsets in the range `start..end`.
     #[cold]
     pub fn make_accessible(&mut self, start: isize, end: isize) {
-        let start_ptr = (self.offset as isize).wrapping_add(start);
-        let end_ptr = (self.offset as isize).wrapping_add(end);
+        let start_ptr = (self.offset as isize)
+            .checked_add(start)
+            .expect("tape position out of range");
+        let end_ptr = (self.offset as isize)
+            .checked_add(end)
+            .expect("tape position out of range");
         let needed_below = if start_ptr < 0 {
             start_ptr.unsigned_abs()
         } else {
@@ -123,7 +127,8 @@ impl<C: CellType> Memory<C> {
 
     #[cold]
     fn write_out_of_bounds(&mut self, offset: isize, value: C) {
-        self.make_accessible(offset, offset + 1);
+        let end = offset.checked_add(1).expect("tape position out of range");
+        self.make_accessible(offset, end);
         let ptr = self.offset.wrapping_add_signed(offset);
         // Safety: `make_accessible` ensures that `ptr` can be written safely.
         unsafe { *self.buffer.add(ptr) = value };
